@@ -5,11 +5,17 @@ NAME=$1; FILE=$2; OLD=$3; NEW=$4
 D=$(mktemp -d /tmp/mk_XXXXXX); trap 'rm -rf "$D"' EXIT
 mkdir -p "$D/a/$(dirname $FILE)" "$D/b/$(dirname $FILE)"
 cp /repo/$FILE "$D/a/$FILE"; cp /repo/$FILE "$D/b/$FILE"
-OLD="$OLD" NEW="$NEW" /venv/bin/python - "$D/b/$FILE" <<'PY'
+OLD="$OLD" NEW="$NEW" NTH="${NTH:-0}" /venv/bin/python - "$D/b/$FILE" <<'PY'
 import os,sys
 p=sys.argv[1]; s=open(p).read(); old=os.environ['OLD']; new=os.environ['NEW']
-assert s.count(old)==1, "pattern occurs %d times" % s.count(old)
-open(p,'w').write(s.replace(old,new))
+n=int(os.environ.get('NTH','0'))
+if n==0:
+    assert s.count(old)==1, "pattern occurs %d times" % s.count(old)
+    s=s.replace(old,new)
+else:
+    parts=s.split(old); assert len(parts)>n, "only %d occurrences" % (len(parts)-1)
+    s=old.join(parts[:n])+new+old.join(parts[n:])
+open(p,'w').write(s)
 PY
 (cd "$D" && diff -u a/$FILE b/$FILE > /verif/selftest/mutants/$NAME.diff || true)
 echo "wrote selftest/mutants/$NAME.diff ($(wc -l < /verif/selftest/mutants/$NAME.diff) lines)"
